@@ -994,7 +994,8 @@ def builtin_attr(I, obj, name):
         if name == "copy":
             return N(lambda ctx: opendict_copy(obj))
         if name == "keys":
-            return N(lambda ctx: I.iterate(obj))
+            # membership tests on the view go to the dictionary itself; iteration needs a closed dictionary
+            return N(lambda ctx: obj if not (obj.closed or obj.default is None) else I.iterate(obj))
         if name == "items":
             return N(lambda ctx: [(k, obj.entries[k]) for k in I.iterate(obj)])
         if name == "values":
